@@ -237,4 +237,118 @@ theorem baseMultiply_spec (k : Nat) (unc : Bool) :
   unfold baseMultiply
   rw [apiFinish_spec _ (ecmultGen_ref k).1, ecmultGen_mul]
 
+theorem slice_bytes {xy : List Nat} (hb : ∀ b ∈ xy, b < 256) (i : Nat) : ∀ x ∈ (xy.drop i).take 32, x < 256 :=
+  fun x hx => hb x (List.mem_of_mem_drop (List.mem_of_mem_take hx))
+
+theorem canon_mag8 {a : Fe} (h : a.canon) : a.mag 8 := mag_mono (canon_mag1 h) (by decide)
+
+theorem ite_chain33 {α : Type} (b c : Bool) (e pk : α)
+    (h : (if (!b) = true then none else if c = true then some e else none) = some pk) :
+    b = true ∧ c = true ∧ pk = e := by
+  cases b <;> cases c <;> simp_all
+
+theorem ite_chain65 {α : Type} (b1 b2 : Bool) (q : Prop) [Decidable q] (c : Bool) (e pk : α)
+    (h : (if (!b1 || !b2) = true then none else if q then none else if c = true then some e else none) = some pk) :
+    b1 = true ∧ b2 = true ∧ ¬ q ∧ c = true ∧ pk = e := by
+  by_cases hq : q <;> cases b1 <;> cases b2 <;> cases c <;> simp_all
+
+/-- whatever `XY.ParsePubkey` accepts is an affine point within the contract (both coordinates canonical), finite,
+    on the curve, with x = the big-endian value of bytes 1..32, which is below p -/
+theorem parsePubkey_ok (xy : List Nat) (hb : ∀ b ∈ xy, b < 256) (pk : XY) (h : XY.parsePubkey xy = some pk) :
+    pk.ok ∧ pk.inf = false ∧ OnC pk.toPoint ∧ pk.x.canon ∧ pk.x.val = beVal ((xy.drop 1).take 32) ∧
+      beVal ((xy.drop 1).take 32) < P := by
+  unfold XY.parsePubkey at h
+  simp only [setB32Limit] at h
+  by_cases c : xy.length = 33 ∧ (xy.headD 0 = 2 ∨ xy.headD 0 = 3)
+  · rw [if_pos c] at h
+    have hl : ((xy.drop 1).take 32).length = 32 := by simp [c.1]
+    obtain ⟨hv, hc⟩ := setB32L_val _ hl (slice_bytes hb 1)
+    obtain ⟨ex, ei, eok, _, _⟩ := setXO_ok (setB32L ((xy.drop 1).take 32)) (xy.headD 0 == 3) (canon_mag8 hc)
+    obtain ⟨hlt, hval, rfl⟩ := ite_chain33 _ _ _ _ h
+    have hcur := ((isValid_iff _ eok).1 hval).2
+    refine ⟨eok, ei, ?_, by rw [ex]; exact hc, by rw [ex]; exact hv, of_decide_eq_true hlt⟩
+    rw [XY.toPoint_fin ei]; exact (onC_ptF _ _).2 hcur
+  · rw [if_neg c] at h
+    by_cases c2 : xy.length = 65 ∧ (xy.headD 0 = 4 ∨ xy.headD 0 = 6 ∨ xy.headD 0 = 7)
+    · rw [if_pos c2] at h
+      have hl : ((xy.drop 1).take 32).length = 32 := by simp [c2.1]
+      have hl2 : ((xy.drop 33).take 32).length = 32 := by simp [c2.1]
+      obtain ⟨hv, hc⟩ := setB32L_val _ hl (slice_bytes hb 1)
+      obtain ⟨hv2, hc2⟩ := setB32L_val _ hl2 (slice_bytes hb 33)
+      have eok : XY.ok { x := setB32L ((xy.drop 1).take 32), y := setB32L ((xy.drop 33).take 32), inf := false } :=
+        ⟨canon_mag8 hc, canon_mag8 hc2⟩
+      obtain ⟨hlt, _, _, hval, rfl⟩ := ite_chain65 _ _ _ _ _ _ h
+      have hcur := ((isValid_iff _ eok).1 hval).2
+      refine ⟨eok, rfl, ?_, hc, hv, of_decide_eq_true hlt⟩
+      rw [XY.toPoint_fin rfl]; exact (onC_ptF _ _).2 hcur
+    · rw [if_neg c2] at h
+      cases h
+
+/-! ### BaseMultiplyAdd, Multiply -/
+
+theorem withParsed_none (xy : List Nat) (f : XY → ApiRes) (hp : XY.parsePubkey xy = none) : withParsed xy f = .refused := by
+  unfold withParsed; rw [hp]
+
+theorem withParsed_some (xy : List Nat) (f : XY → ApiRes) (pk : XY) (hp : XY.parsePubkey xy = some pk) :
+    withParsed xy f = f pk := by
+  unfold withParsed; rw [hp]
+
+theorem withEcmult_some (o : Option XYZ) (f : XYZ → ApiRes) (r : XYZ) (h : o = some r) : withEcmult o f = f r := by
+  subst h; rfl
+
+theorem baseMultiplyAdd_none (xy : List Nat) (k : Nat) (unc : Bool) (hp : XY.parsePubkey xy = none) :
+    baseMultiplyAdd xy k unc = .refused := withParsed_none xy _ hp
+
+theorem baseMultiplyAdd_some (xy : List Nat) (k : Nat) (unc : Bool) (pk : XY) (hp : XY.parsePubkey xy = some pk) :
+    baseMultiplyAdd xy k unc = apiFinish (XYZ.addXY (ecmultGen k) pk) unc := withParsed_some xy _ pk hp
+
+theorem baseMultiplyAdd_spec (xy : List Nat) (hb : ∀ b ∈ xy, b < 256) (k : Nat) (unc : Bool) (pk : XY)
+    (hp : XY.parsePubkey xy = some pk) :
+    baseMultiplyAdd xy k unc = apiRef (Secp.add (Secp.mul (k % 2 ^ 256) Secp.G) pk.toPoint) unc := by
+  obtain ⟨pok, _, _⟩ := parsePubkey_ok xy hb pk hp
+  obtain ⟨h1, h2⟩ := addXY_ok (ecmultGen k) pk (ecmultGen_ref k).1 pok
+  rw [baseMultiplyAdd_some xy k unc pk hp, apiFinish_spec _ h1, h2, ecmultGen_mul]
+
+theorem multiply_none (xy : List Nat) (k : Nat) (unc : Bool) (hp : XY.parsePubkey xy = none) :
+    multiply xy k unc = .refused := withParsed_none xy _ hp
+
+theorem multiply_some (xy : List Nat) (k : Nat) (unc : Bool) (pk : XY) (r : XYZ) (hp : XY.parsePubkey xy = some pk)
+    (hr : ecmult (XYZ.ofXY pk) (k : Int) 0 = some r) :
+    multiply xy k unc = apiFinish r unc :=
+  (withParsed_some xy _ pk hp).trans (withEcmult_some _ _ r hr)
+
+theorem multiply_spec (xy : List Nat) (hb : ∀ b ∈ xy, b < 256) (k : Nat) (unc : Bool) (pk : XY)
+    (hp : XY.parsePubkey xy = some pk) (hA : OnC (XYZ.ofXY pk).toPoint)
+    (hn : ((CurveConsts.order : Nat) : Int) • mkPt (XYZ.ofXY pk).toPoint hA = 0)
+    (hl : ∀ A' : CurvePt, Rp (XYZ.mulLambda (XYZ.ofXY pk)) A' →
+      A' = ((CurveConsts.lambda : Nat) : Int) • mkPt (XYZ.ofXY pk).toPoint hA) :
+    multiply xy k unc = apiRef (Secp.mul k pk.toPoint) unc := by
+  obtain ⟨pok, _, _⟩ := parsePubkey_ok xy hb pk hp
+  obtain ⟨jok, jpt⟩ := ofXY_ok pk pok
+  obtain ⟨r, hr, hR⟩ := ecmult_mul (XYZ.ofXY pk) jok hA (k : Int) 0 (by norm_num) hn hl
+  rw [multiply_some xy k unc pk r hp hr, apiFinish_spec r hR.1, hR.2, zero_nsmul, add_zero, natCast_zsmul, ← mul_eq_nsmul]
+  simp only [mkPt, jpt]
+
+/-! ### the operand G: every hypothesis discharged -/
+
+/-- SEC1 compressed encoding of the generator: 02 ‖ Gx -/
+def gBytes : List Nat := 2 :: toB32 CurveConsts.gx
+
+theorem gBytes_bytes : ∀ b ∈ gBytes, b < 256 := by decide +kernel
+
+/-- `ParsePubkey(02‖Gx)` is, limb for limb, the table entry pre_g[0] (one kernel evaluation of the model: SetB32,
+    the square-root chain of SetXO, IsValid) -/
+theorem parse_G : XY.parsePubkey gBytes = some (preGXY 0) := by decide +kernel
+
+theorem multiply_G (k : Nat) (unc : Bool) : multiply gBytes k unc = apiRef (Secp.mul k Secp.G) unc := by
+  obtain ⟨r, hr, hR⟩ := ecmult_G (k : Int) 0 (by norm_num)
+  have hr' : ecmult (XYZ.ofXY (preGXY 0)) (k : Int) 0 = some r := hr
+  rw [multiply_some gBytes k unc (preGXY 0) r parse_G hr', apiFinish_spec r hR.1, hR.2, zero_nsmul, add_zero,
+    natCast_zsmul, ← mul_G]
+
+theorem baseMultiplyAdd_G (k : Nat) (unc : Bool) :
+    baseMultiplyAdd gBytes k unc = apiRef (Secp.mul (k % 2 ^ 256 + 1) Secp.G) unc := by
+  rw [baseMultiplyAdd_spec gBytes gBytes_bytes k unc (preGXY 0) parse_G, preGXY0_RpA.2, mul_G, mul_G, ← val_add,
+    add_nsmul, one_nsmul]
+
 end GocoinV.C08
